@@ -2564,6 +2564,36 @@ def _(it, ci, a, d):
     return deref(a[0]).c.isascii()
 
 
+def _char_pred(name, fn):
+    @model('char::' + name)
+    def _m(it, ci, a, d, fn=fn):
+        v = deref(a[0])
+        c = v.c if type(v) is Char else (chr(v) if isinstance(v, int) else None)
+        if c is None:
+            raise Inconclusive('char::%s on %r' % (name, v))
+        return bool(fn(c))
+
+
+_char_pred('is_ascii_graphic', lambda c: 33 <= ord(c) <= 126)
+_char_pred('is_ascii_control', lambda c: ord(c) < 32 or ord(c) == 127)
+_char_pred('is_ascii_uppercase', lambda c: 'A' <= c <= 'Z')
+_char_pred('is_ascii_lowercase', lambda c: 'a' <= c <= 'z')
+_char_pred('is_ascii_hexdigit', lambda c: c in '0123456789abcdefABCDEF')
+_char_pred('is_control', lambda c: __import__('unicodedata').category(c) == 'Cc')
+_char_pred('is_uppercase', lambda c: c.isupper())
+_char_pred('is_lowercase', lambda c: c.islower())
+_char_pred('is_numeric', lambda c: c.isnumeric())
+_char_pred('is_alphabetic', lambda c: c.isalpha())
+
+
+@model('char::to_ascii_lowercase', 'char::to_ascii_uppercase')
+def _(it, ci, a, d):
+    c = deref(a[0]).c
+    if not c.isascii():
+        return Char(c)
+    return Char(c.lower() if ci.name == 'to_ascii_lowercase' else c.upper())
+
+
 @model('char::is_ascii_punctuation')
 def _(it, ci, a, d):
     import string
